@@ -54,13 +54,18 @@ CloseFiles(o) == /\ Tick /\ st[o] = "open" /\ st' = [st EXCEPT ![o] = "closing"]
                  /\ UNCHANGED <<corrupt, last>>
 CloseUnlock(o) == /\ Tick /\ st[o] = "closing" /\ st' = [st EXCEPT ![o] = "closed"] /\ holder' = "none"
                   /\ UNCHANGED <<corrupt, last>>
+\* an opener's process dies without Close: the operating system releases the lock it held (openers of one process
+\* die together; modelled per opener, since at most one opener is not closed)
+Die(o) == /\ Tick /\ st[o] # "closed" /\ st' = [st EXCEPT ![o] = "closed"]
+          /\ holder' = IF holder = o THEN "none" ELSE holder
+          /\ last' = [last EXCEPT ![o] = "died"] /\ UNCHANGED corrupt
 \* the holder uses its database (writes, Merge with its temporary database on the sibling directory): the lock stays
 \* (Bug "MergeDropsLock", seeded change C16-d: closing the temporary database of a Merge released the shared lock)
 Work(o) == /\ Tick /\ st[o] = "open" /\ holder' = IF "MergeDropsLock" \in Bug THEN "none" ELSE holder
            /\ UNCHANGED <<st, corrupt, last>>
 \* somebody repairs / damages the directory while nobody has it open
 Flip == /\ Tick /\ holder = "none" /\ corrupt' \in Kinds \ {corrupt} /\ UNCHANGED <<st, holder, last>>
-Next == (\E o \in Openers : TryOpen(o) \/ Load(o) \/ CloseFiles(o) \/ CloseUnlock(o) \/ Work(o)) \/ Flip
+Next == (\E o \in Openers : TryOpen(o) \/ Load(o) \/ CloseFiles(o) \/ CloseUnlock(o) \/ Work(o) \/ Die(o)) \/ Flip
 Spec == Init /\ [][Next]_vars
 
 AtMostOneOpen == Cardinality({o \in Openers : st[o] # "closed"}) <= 1
